@@ -125,6 +125,25 @@ def blank_noncode(src):
     return "".join(out)
 
 
+def strip_verif_hooks(src):
+    """drop items under #[cfg(emmyluals_emmylua_analyzer_rust_verif)] (harness hooks are not server code)"""
+    out = src
+    while True:
+        m = re.search(r"#\[cfg\(emmyluals_emmylua_analyzer_rust_verif\)\]\s*", out)
+        if not m:
+            return out
+        rest = out[m.end():]
+        semi = rest.find(";")
+        brace = rest.find("{")
+        is_use = re.match(r"(pub(\([a-z]+\))?\s+)?use\b", rest) is not None
+        if brace >= 0 and not is_use:
+            e = match_close(rest, brace, "{", "}")
+            end = m.end() + (e + 1 if e >= 0 else len(rest))
+        else:
+            end = m.end() + (semi + 1 if semi >= 0 else len(rest))
+        out = out[:m.start()] + " " * (end - m.start() - out[m.start():end].count("\n")) + "\n" * out[m.start():end].count("\n") + out[end:]
+
+
 def strip_tests(src):
     m = re.search(r"^#\[cfg\(test\)\]\s*\n\s*(pub\s+)?mod\s+\w+", src, re.M)
     return src[:m.start()] if m else src
@@ -207,7 +226,7 @@ def scan(repo):
                 continue
             path = os.path.join(dp, fn_)
             rel = os.path.relpath(path, root)
-            code = blank_noncode(strip_tests(open(path, encoding="utf8").read()))
+            code = blank_noncode(strip_verif_hooks(strip_tests(open(path, encoding="utf8").read())))
             if "token_at_offset" not in code and "get_offset" not in code and "to_rowan_range" not in code and " as usize" not in code:
                 continue
             fl = list(functions(code))
@@ -292,6 +311,116 @@ def scan(repo):
     return sites, sorted(missing)
 
 
+# TextRange::new(A, B) asserts A <= B.  Sites whose order is not evident from the syntax were reviewed by hand; the
+# review is pinned to a hash of the enclosing function (blanked comments/strings, whitespace removed): any edit of
+# that function makes the site Unknown again until it is re-reviewed.
+REVIEWED_RANGES = {
+    ("semantic_token/language_injector.rs", "divide_into_quote_and_code_block", "end_quote_start", "range_start + TextSize::from(text.len() as u32)"):
+        "end_quote_start = range_start + (rfind position | len - 1) <= range_start + len",
+    ("completion/providers/mod.rs", "get_text_edit_range_in_string", "start_offset.into()", "end_offset.into()"):
+        "text is not empty; start+1 only for an opening quote; end-1 only while end > start (fix ad11241)",
+    ("completion/providers/array_append_provider.rs", "complete_provider", "builder.position_offset", "edit_end"):
+        "edit_end is the end of a token after the trigger token, or position_offset itself",
+    ("completion/providers/postfix_provider.rs", "get_postfix_target", "text_range.start()", "(trigger_pos + 1).into()"):
+        "the expression left of the trigger token starts before the trigger position",
+    ("document_color/build_color.rs", "try_build_color_information", "source_text_range.start() + TextSize::new(start as u32)", "source_text_range.start() + TextSize::new(j as u32)"):
+        "start is i or i-1 and i < j",
+    ("document_formatting/format_diff.rs", "generate_text_edits", "start_range.start()", "end_range.end()"):
+        "first_line <= last_line of one run of deleted lines",
+}
+REVIEWED_HASHES = {}   # filled from checks/ls_position_sites.reviewed.json: "file::fn" -> sha1
+
+
+def fn_hash(body):
+    import hashlib
+    return hashlib.sha1(re.sub(r"\s+", "", body).encode("utf8")).hexdigest()[:16]
+
+
+def split_args(argtext):
+    depth, cur, out = 0, "", []
+    for ch in argtext:
+        if ch in "([{":
+            depth += 1
+        elif ch in ")]}":
+            depth -= 1
+        if ch == "," and depth == 0:
+            out.append(cur)
+            cur = ""
+        else:
+            cur += ch
+    if cur.strip():
+        out.append(cur)
+    return [" ".join(x.split()) for x in out]
+
+
+def classify_range_site(rel, name, a, b, body, rel_pos, reviewed_hashes):
+    """returns (kind, note)"""
+    ea, eb = re.escape(a), re.escape(b)
+    m = re.fullmatch(re.escape(a) + r" \+ TextSize::(from|new)\(.*\)", b)
+    if m:
+        return "PlusOffset", "end = start + size"
+    ma = re.fullmatch(r"(.+?)\.start\(\)( \+ .+)?", a)
+    mb = re.fullmatch(r"(.+?)\.end\(\)( \+ .+)?", b)
+    if ma and mb and ma.group(1) == mb.group(1) and (ma.group(2) or "") == (mb.group(2) or ""):
+        return ("ShiftedRange" if ma.group(2) else "SameRange"), "both ends of the range %s%s" % (ma.group(1), ma.group(2) or "")
+    before = body[:rel_pos]
+    # `if A > B { return …` before the site
+    if re.search(r"if\s+" + ea + r"\s*>\s*" + eb + r"\s*\{\s*return\b", before):
+        return "GuardedOrder", "preceded by `if %s > %s { return }`" % (a, b)
+    # the site stands inside `if B > A {` / `if A < B {`
+    for g in list(re.finditer(r"if\s+" + eb + r"\s*>\s*" + ea + r"\s*\{", before)) + list(re.finditer(r"if\s+" + ea + r"\s*<\s*" + eb + r"\s*\{", before)):
+        close = match_close(body, g.end() - 1, "{", "}")
+        if close > rel_pos:
+            return "GuardedOrder", "inside `%s`" % " ".join(g.group(0).split())
+    key = (rel, name, a, b)
+    if key in REVIEWED_RANGES:
+        h = fn_hash(body)
+        want = reviewed_hashes.get("%s::%s" % (rel, name))
+        if want == h:
+            return "Reviewed", REVIEWED_RANGES[key]
+        return "UnknownOrder", "reviewed site, but %s changed since the review (hash %s, reviewed %s)" % (name, h, want)
+    return "UnknownOrder", "TextRange::new(%s, %s): order not evident" % (a, b)
+
+
+def scan_ranges(repo, reviewed_hashes):
+    root = os.path.join(repo, HANDLERS)
+    out = []
+    hashes = {}
+    for dp, dns, fns_ in os.walk(root):
+        dns[:] = sorted(d for d in dns if d not in ("test", "test_lib"))
+        for fn_ in sorted(fns_):
+            if not fn_.endswith(".rs"):
+                continue
+            path = os.path.join(dp, fn_)
+            rel = os.path.relpath(path, root)
+            raw = open(path, encoding="utf8").read()
+            if "TextRange::new" not in raw:
+                continue
+            code = blank_noncode(strip_verif_hooks(strip_tests(raw)))
+            fl = list(functions(code))
+            for m in re.finditer(r"TextRange::new\s*\(", code):
+                f = innermost_fn(fl, m.start())
+                close = match_close(code, m.end() - 1, "(", ")")
+                args = split_args(code[m.end():close])
+                if not f or len(args) != 2:
+                    out.append((rel, f[0] if f else "?", "UnknownOrder", "unparsable TextRange::new call"))
+                    continue
+                name, a0, b0 = f
+                body = code[a0:b0]
+                kind, note = classify_range_site(rel, name, args[0], args[1], body, m.start() - a0, reviewed_hashes)
+                hashes["%s::%s" % (rel, name)] = fn_hash(body)
+                out.append((rel, name, kind, "%s — TextRange::new(%s, %s)" % (note, args[0], args[1])))
+    return sorted(set(out)), hashes
+
+
+def load_reviewed_hashes():
+    p = os.path.join(os.path.dirname(os.path.abspath(__file__)), "ls_position_sites.reviewed.json")
+    if os.path.exists(p):
+        import json
+        return json.load(open(p))
+    return {}
+
+
 def dispatch(repo):
     p = os.path.join(repo, HANDLERS, "request_handler.rs")
     if not os.path.exists(p):
@@ -327,6 +456,13 @@ def generate(repo, out_path):
     lines.append(";\n".join(body))
     lines.append("].")
     lines.append("")
+    rsites, _ = scan_ranges(repo, load_reviewed_hashes())
+    lines.append("(* crates/emmylua_ls/src/handlers/**: every TextRange::new(start, end) (asserts start <= end) and why it is ordered *)")
+    lines.append("Definition range_sites : list range_site := [")
+    lines.append(";\n".join("  (* %s *)\n  {| r_file := %s; r_fn := %s; r_kind := %s |}" % (note.replace("*)", "* )").replace("(*", "( *"), coq_str(rel), coq_str(fn), kind)
+                             for rel, fn, kind, note in rsites))
+    lines.append("].")
+    lines.append("")
     lines.append("(* request_handler.rs dispatch_request!{…}: (request type, handler, kind of client position it carries) *)")
     lines.append("Definition position_requests : list (string * (string * string)) := [")
     lines.append(";\n".join("  (%s, (%s, %s))" % (coq_str(t), coq_str(h), coq_str(REQUEST_KIND.get(t, "UNCLASSIFIED"))) for t, h in rows))
@@ -337,6 +473,7 @@ def generate(repo, out_path):
         os.makedirs(os.path.dirname(out_path), exist_ok=True)
         with open(out_path, "w", encoding="utf8") as fh:
             fh.write(txt)
+    generate.range_sites = rsites
     return sites, [(t, h, REQUEST_KIND.get(t, "UNCLASSIFIED")) for t, h in rows], stale, unknown_types
 
 
@@ -347,3 +484,11 @@ if __name__ == "__main__":
     for x in s:
         print(x)
     print("stale allow-list:", stale, "unclassified:", unk)
+    rs, hashes = scan_ranges(repo, load_reviewed_hashes())
+    for x in rs:
+        print(x)
+    if "--write-reviewed" in sys.argv:
+        import json
+        keep = {"%s::%s" % (k[0], k[1]): hashes.get("%s::%s" % (k[0], k[1])) for k in REVIEWED_RANGES}
+        json.dump(keep, open(os.path.join(os.path.dirname(os.path.abspath(__file__)), "ls_position_sites.reviewed.json"), "w"), indent=1)
+        print("reviewed hashes written:", keep)
